@@ -848,6 +848,34 @@ def shrink_spec(spec, sig, budget_s=4.0):
     return {'kind': 'registry', 'legacy': legacy, 'families': fams}
 
 
+NUMTOK = re.compile(r'[0-9e.+\-InfNa]+')
+TS_OVERFLOW = (2 ** 1024 - 2 ** 970) * 1000
+
+
+def check_number_laws(metrics):
+    """re-validate, on every generated sample, the facts the theorem `sample_line_roundtrip` takes as hypotheses about numbers
+    (trusted base: CPython int()/float()/repr): the rendered value is a number token, int() rejects it, float() gives the
+    value back bit for bit (NaN -> NaN), int(str(ms)) == ms and ms / 1000 does not overflow"""
+    from prometheus_client.utils import floatToGoString
+    for m in metrics:
+        for s in m.samples:
+            v = float(s.value)
+            tok = floatToGoString(s.value)
+            if not NUMTOK.fullmatch(tok):
+                raise lib.Infra('trusted number law violated: floatToGoString(%r) = %r is not a number token' % (s.value, tok))
+            try:
+                int(tok)
+                raise lib.Infra('trusted number law violated: int(%r) succeeds' % tok)
+            except ValueError:
+                pass
+            if lib.bits_of(float(tok)) != lib.bits_of(v) and not (v != v):
+                raise lib.Infra('trusted number law violated: float(%r) != %r' % (tok, v))
+            if s.timestamp is not None:
+                ms = int(float(s.timestamp) * 1000)
+                if int(str(ms)) != ms or abs(ms) >= TS_OVERFLOW:
+                    raise lib.Infra('trusted number law violated for millisecond count %r' % ms)
+
+
 class Runner:
     def __init__(self, ctx):
         self.ctx = ctx
@@ -885,6 +913,7 @@ class Runner:
             ctx.case(None, None)
             return res
         ctx.count('family-level:' + res.get('famlevel', '?'))
+        check_number_laws(metrics)
         nontrivial = ('\\' in text or any(s.timestamp is not None for m in metrics for s in m.samples)
                       or any(not LEG_METRIC.fullmatch(x) for m in metrics for x in [m.name] + [s.name for s in m.samples]))
         key = c14text.doc_key(text) + ('L' if spec['legacy'] else 'U')
